@@ -44,6 +44,50 @@ def _chunk(rng):
     return total, bad, len(distinct), hi - lo
 
 
+def _desc_chunk(rng):
+    """the same heights in descending order (a subsidy that depends on the previously asked height would differ)"""
+    from skepticoin.consensus import get_block_subsidy
+    lo, hi = rng
+    bad = []
+    total = 0
+    for h in range(hi - 1, lo - 1, -1):
+        v = get_block_subsidy(h)
+        if v != (INITIAL >> (h // INTERVAL)) and len(bad) < 5:
+            bad.append((h, repr(v), INITIAL >> (h // INTERVAL), 'descending'))
+        total += v if isinstance(v, int) else 0
+    return total, bad, hi - lo
+
+
+def _pairs(_):
+    """every ordered pair (and every ordered triple of era starts) of representative heights: the answer for the last
+    one must not depend on what was asked before"""
+    from skepticoin.consensus import get_block_subsidy
+    reps = []
+    for e in range(0, 34):
+        reps += [e * INTERVAL, e * INTERVAL + 1, e * INTERVAL + INTERVAL - 1]
+    reps += [63 * INTERVAL, 64 * INTERVAL, 65 * INTERVAL, 2**32 - 1]
+    bad = []
+    n = 0
+    for a in reps:
+        for b in reps:
+            n += 1
+            get_block_subsidy(a)
+            v = get_block_subsidy(b)
+            if v != ref(b) and len(bad) < 5:
+                bad.append((a, b, repr(v), ref(b)))
+    starts = [e * INTERVAL for e in range(0, 33)]
+    for a in starts:
+        for b in starts:
+            for c in starts:
+                n += 1
+                get_block_subsidy(a)
+                get_block_subsidy(b)
+                v = get_block_subsidy(c)
+                if v != ref(c) and len(bad) < 5:
+                    bad.append(((a, b), c, repr(v), ref(c)))
+    return n, bad
+
+
 def run(ctx):
     import skepticoin.params as P
     import skepticoin.consensus as C
@@ -59,6 +103,17 @@ def run(ctx):
         for (h, v, exp, kind) in r[1]:
             ctx.violation('subsidy-%s' % kind, "get_block_subsidy(%d) = %s, schedule says %s" % (h, v, exp),
                           {'kind': 'height', 'h': h})
+    dres = ctx.pmap(_desc_chunk, chunks)
+    evals += sum(r[2] for r in dres)
+    for r in dres:
+        for (h, v, exp, kind) in r[1]:
+            ctx.violation('subsidy-depends-on-call-history', "get_block_subsidy(%d) = %s when heights are asked in descending order, "
+                          "schedule says %s" % (h, v, exp), {'kind': 'desc', 'h': h})
+    npairs, pbad = ctx.pmap(_pairs, [0, 1])[0]
+    evals += npairs
+    for a, b, v, exp in pbad:
+        ctx.violation('subsidy-depends-on-call-history', "get_block_subsidy(%s) = %s right after asking for %s; schedule says %s" % (
+            b, v, a, exp), {'kind': 'pair', 'a': a if isinstance(a, int) else list(a), 'b': b})
     if total != MAXS:
         ctx.violation('sum', "sum of subsidies over all heights = %d, documented maximum %d" % (total, MAXS),
                       {'kind': 'sum'})
@@ -90,7 +145,9 @@ def run(ctx):
         'evaluations': evals + nb + 12,
         'distinct_nontrivial': sum(r[2] for r in res),
         'rule': "every height 0..%d individually (all %d heights with non-zero subsidy + one zero era), every era "
-                "boundary b*1,050,000+{-1,0,1} for b up to %d, 2^32-1, 2^63, 2^64; distinct_nontrivial = number of "
+                "boundary b*1,050,000+{-1,0,1} for b up to %d, 2^32-1, 2^63, 2^64; the same heights once more in descending order; "
+                "every ordered pair of 106 representative heights and every ordered triple of the 33 era starts (the answer must "
+                "not depend on earlier calls); distinct_nontrivial = number of "
                 "(chunk, subsidy value) pairs observed" % (LAST - 1, 30 * INTERVAL, (2**32 - 1) // INTERVAL + 1),
         'samples': [{'h': h, 'subsidy': ref(h)} for h in (0, INTERVAL - 1, INTERVAL, 29 * INTERVAL, 30 * INTERVAL)],
         'exhaustive': True, 'heights_enumerated': evals, 'boundaries': nb, 'sum_observed': total,
@@ -153,6 +210,18 @@ def replay(data, ctx):
                     out.append(('subsidy-nonzero-after-zero', 'rises at %d' % h))
             except Exception:
                 pass
+    elif data['kind'] == 'pair':
+        for a in (data['a'] if isinstance(data['a'], list) else [data['a']]):
+            C.get_block_subsidy(a)
+        if C.get_block_subsidy(data['b']) != ref(data['b']):
+            out.append(('subsidy-depends-on-call-history', 'reproduced'))
+    elif data['kind'] == 'desc':
+        h = data['h']
+        C.get_block_subsidy(min(h + INTERVAL, LAST))
+        for x in range(min(h + 5, LAST), h - 1, -1):
+            v = C.get_block_subsidy(x)
+        if v != ref(h):
+            out.append(('subsidy-depends-on-call-history', 'reproduced'))
     elif data['kind'] == 'sum':
         t = sum(C.get_block_subsidy(e * INTERVAL) * INTERVAL for e in range(0, 33))
         # era-wise product is only valid when the per-height enumeration found the function era-constant;
